@@ -28,8 +28,9 @@ class Monitor:
         self.children = tuple(cfg.get("children", CHILDREN))
         self.keys = [tuple(k) for k in cfg["keys"]]
         self.values = cfg["values"]
+        self.node_type = cfg.get("node_type", 17)
         for n in self.nodes:
-            s.line(f"{n};255;0;0;17;{v}")
+            s.line(f"{n};255;0;0;{self.node_type};{v}")
             for c in self.children:
                 s.line(f"{n};{c};0;0;3;")
         self.sleeping = {n: False for n in self.nodes}
@@ -60,6 +61,9 @@ class Monitor:
                 evs.append(["wake", n])
         for n in self.nodes:
             evs.append(["line", f"{n};{c0};1;0;2;x"])  # a set from the node (non-wake traffic)
+        # the node reports exactly a value the application also sends, and echoes one with the ack flag set
+        evs.append(["line", f"{n0};{c0};1;0;2;{self.values[0]}"])
+        evs.append(["line", f"{n0};{c0};1;1;2;{self.values[-1]}"])
         evs.append(["line", f"{n0};255;3;0;0;0"])  # battery report
         if v == "2.2":
             evs.append(["line", f"{n0};255;3;0;22;0"])  # heartbeat response is not a wake in 2.2
@@ -113,6 +117,8 @@ class Monitor:
                 self.nontrivial = True
             if out.kind != "yield":
                 bad("wake-raised", f"wake of node {n} raised {type(out.exc).__name__}: {out.exc}")
+            elif ";".join(str(x) for x in out.fields) != wake_line(v, n):
+                bad("wake-line-not-yielded", f"the wake line {wake_line(v, n)!r} of node {n} was yielded as {out.fields}")
             missing = must - got
             extra = got - may
             if missing:
@@ -128,7 +134,7 @@ class Monitor:
                 self.stale.discard(k)
         elif kind == "present":
             n = ev[1]
-            out = s.line(f"{n};255;0;0;17;{v}")
+            out = s.line(f"{n};255;0;0;{self.node_type};{v}")
             self.last_desc = out.describe()
             self.sleeping[n] = False
             got = [w for w in out.writes if ";3;0;19;" not in w]
@@ -174,12 +180,56 @@ def configs(ctx: core.Ctx) -> list:
     # boundary ids: highest assignable node id 254, the gateway's own id 0, child ids 0 and 254
     for v in (["2.2"] if ctx.quick else ["1.5", "2.0", "2.2"]):
         cfgs.append({"version": v, "nodes": [254, 0], "children": [0, 254], "keys": [[254, 0, 2], [0, 0, 2]] if ctx.quick else [[254, 0, 2], [254, 254, 2], [0, 0, 2]], "values": ["a", "b"], "sleep": [True, True]})
+        # nodes that presented themselves as repeater nodes (type 18)
+        cfgs.append({"version": "2.1" if v == "2.2" else v, "node_type": 18, "keys": [[1, 3, 2], [2, 3, 2]], "values": ["a", "b"], "sleep": [True, True]})
         # ids one of which is a decimal prefix of the other (25 / 254), child ids likewise (2 / 25)
         cfgs.append({"version": v, "nodes": [25, 254], "children": [2, 25], "keys": [[25, 2, 2], [254, 25, 2]] if ctx.quick else [[25, 2, 2], [254, 25, 2], [254, 2, 25]], "values": ["a", "b"], "sleep": [True, True]})
     return cfgs
 
 
+def stress_case(job) -> list:
+    """Capacity: many distinct commands (set keys and internal types) parked for ONE sleeping node, while a
+    second node also has some; at the wake every one of the woken node's commands is written exactly once."""
+    version, nset, nint = job
+    viols = []
+    s = Session(version)
+    wt = R.wake_type(version)
+    for n in (1, 2):
+        s.line(f"{n};255;0;0;17;{version}")
+        for c in range(8):
+            s.line(f"{n};{c};0;0;3;")
+        s.line(f"{n};255;3;0;{wt};0")
+    want = []
+    k = 0
+    for c in range(8):
+        for t in range(8):
+            if k >= nset:
+                break
+            k += 1
+            want.append(R.enc(1, c, 1, 0, t, f"v{k}"))
+            s.send(Message(1, c, 1, 0, t, f"v{k}"))
+    for t in range(nint):
+        want.append(R.enc(1, 255, 3, 0, t, f"i{t}"))
+        s.send(Message(1, 255, 3, 0, t, f"i{t}"))
+    s.send(Message(2, 0, 1, 0, 0, "other"))
+    if s.transport.attempts:
+        viols.append((f"C07|stress-written-early|{version}", f"[{version}] {len(s.transport.attempts)} of {len(want)} parked commands were written before the wake", {"stress": list(job)}))
+    out = s.line(f"1;255;3;0;{wt};0")
+    got = Counter(out.writes)
+    missing = [w for w in want if got[w] != 1]
+    extra = [w for w in out.writes if w not in want]
+    if out.kind != "yield" or missing or extra:
+        viols.append((f"C07|stress-wake|{version}", f"[{version}] {nset} set + {nint} internal commands parked for node 1: wake gave {out.kind} {type(out.exc).__name__ if out.exc else ''}; {len(missing)} not written exactly once (e.g. {missing[:2]}), {len(extra)} foreign writes (e.g. {extra[:2]})", {"stress": list(job)}))
+    out2 = s.line(f"1;255;3;0;{wt};0")
+    if out2.writes:
+        viols.append((f"C07|stress-rewritten|{version}", f"[{version}] a second wake wrote {out2.writes[:3]} again", {"stress": list(job)}))
+    return viols
+
+
 def run(ctx: core.Ctx) -> core.Report:
+    sjobs = [(v, ns, ni) for v in (["2.1", "2.2"] if ctx.quick else ["2.0", "2.1", "2.2"]) for ns, ni in ((1, 0), (10, 10), (21, 0), (0, 11), (40, 15), (64, 29))]
+    sres = core.pmap(stress_case, sjobs, ctx.workers)
+    sviols = [core.Violation(k, w, rep) for r in sres for k, w, rep in r]
     res = bfs.search(ctx, MOD, configs(ctx), max_depth=40)
     cov = {
         "states": res["states"],
@@ -194,7 +244,7 @@ def run(ctx: core.Ctx) -> core.Report:
     return core.Report(
         level="model_checking",
         coverage=cov,
-        violations=res["violations"],
+        violations=res["violations"] + sviols,
         assumptions=[
             "sequential semantics only (concurrent send vs flush is C09)",
             "1.x sleeping flag set directly on the Node (public attribute), as a loaded persistence file would",
@@ -204,4 +254,7 @@ def run(ctx: core.Ctx) -> core.Report:
 
 
 def replay(data: dict) -> dict:
+    if "stress" in data:
+        v = stress_case(tuple(data["stress"]))
+        return {"violated": bool(v), "violations": [{"key": k, "what": w} for k, w, _ in v]}
     return bfs.replay_history(MOD, data)
